@@ -130,6 +130,19 @@ def gen_cases(rng, ctx):
         if i % 10 == 0:
             for k in range(len(s) + 1):
                 mk(ak, a, b, dk, dest, port, [s[:k]] if k else [], "truncated", nontrivial=k >= 2)
+    # end to end: the real endpoint (Core::listen) with a SOCKS5 upstream, a scripted SOCKS5 server on loopback, a real TLS client
+    e2e = []
+    for ext in (0, 1):
+        method_ok = 0x80 if ext else 2
+        e2e += [(ext, 1, method_ok, 0, 0, at, tl, bw) for at in (1, 3, 4) for tl, bw in ((0, 0), (3, 1))]
+        e2e += [(ext, 1, method_ok, st, 0, 1, 0, 0) for st in (1, 255)]
+        e2e += [(ext, 1, method_ok, 0, code, 1, 0, bw) for code in (1, 2, 3, 4, 5, 6, 7, 8) for bw in ((0, 1) if thorough else (0,))]
+        e2e += [(ext, 1, m, 0, 0, 1, 2, 0) for m in (0, 0xFF, 2 if ext else 0x80, 1)]
+    e2e += [(0, 0, 0, 0, 0, 1, 1, 0), (0, 0, 2, 0, 0, 1, 0, 0), (0, 0, 0, 0, 5, 3, 0, 1)]
+    for cfg in e2e:
+        l = line("c15_front", [list(cfg)])
+        cases.append(Case(l, l, (lambda impl, ext=cfg[0], cr=cfg[1]: "c15_wellformed %d %s" % ((2 if ext else 1) if cr else 0, impl.split()[1] if len(impl.split()) > 1 else "-")),
+                          kind="endpoint:socks-upstream", nontrivial=True, meta={"e2e": True, "cfg": list(cfg)}))
     # make_auth
     for i in range(300 if thorough else 60):
         u = utf8_string(rng, rng.range(0, 20))
@@ -169,6 +182,38 @@ def judge(case, impl, model, spec, ctx):
     if impl == "999":
         return [("violation", "the SOCKS5 client code panicked (%s)" % case.kind)]
     out = []
+    if case.meta and case.meta.get("e2e"):
+        if impl == "996":
+            ctx.setdefault("skipped_env", []).append(case.kind)
+            return []
+        ext, creds, method, st, code, atyp, tail_n, bw = case.meta["cfg"]
+        t = impl.split()
+        status, warn, intact = untok(t[0])
+        seen = untok(t[1]) if len(t) > 1 else []
+        what = ("endpoint with a SOCKS5 upstream (%s authentication, client %s credentials); the server selects method 0x%02x, answers the "
+                "authentication with %d and the request with reply %d (bound address type %d, %d tunnel bytes right behind the reply, %s)"
+                % ("extended" if ext else "user/password", "with" if creds else "without", method, st, code, atyp, tail_n, "byte by byte" if bw else "at once"))
+        offered = {0, (0x80 if ext else 2)} if creds else {0}
+        # direct oracle (RFC 1928/1929 reading of the script)
+        if method not in offered:
+            want = (407, 0) if method in (2, 0x80, 0xFF) else (502, 300)
+        elif method != 0 and st != 0:
+            want = (407, 0)
+        elif code == 0:
+            want = (200, 0)
+        else:
+            want = (502, {3: 301, 4: 301, 6: 302}.get(code, 300))
+        if spec is not None and spec.strip() != "1":
+            out.append(("violation", "%s: the bytes the endpoint wrote to the SOCKS5 server are not a sequence of well-formed messages: %s" % (what, seen[:60])))
+        elif (status, warn) != want:
+            out.append(("violation", "%s: the client was answered %d (X-Warning %d), expected %d (%d)" % (what, status, warn, want[0], want[1])))
+        elif status == 200 and not intact:
+            out.append(("violation", "%s: the tunnel does not start with the bytes that followed the reply, or does not echo" % what))
+        elif status == 200 and seen[-16:] != [5, 1, 0, 3, 11] + list(b"example.org") + [1, 187][:0] and seen[-18:] != [5, 1, 0, 3, 11] + list(b"example.org") + [1, 187]:
+            out.append(("violation", "%s: the request the SOCKS5 server received is not CONNECT example.org:443: %s" % (what, seen[-18:])))
+        elif model is not None and impl != model:
+            out.append(("disagree", "%s: %s vs model %s" % (what, impl[:80], model[:80])))
+        return out
     if case.kind in ("dialogue", "truncated", "corpus:long-user", "corpus:long-password"):
         if spec is not None and spec.strip() != "1":
             out.append(("violation", "the client wrote bytes to the SOCKS5 server that are not a sequence of well-formed "
